@@ -46,6 +46,14 @@ mod pty {
         /// `poll(Some(ms))`
         Poll(u64),
         Drop,
+        /// `execute(TerminalCommand::Image(image n, position))` — output of the terminal's image handler
+        Image(usize),
+        /// `execute(TerminalCommand::ImageErase(image n, Some(position)))`
+        ImageErase(usize),
+        /// the peer stops reading the master (stalled terminal emulator): what follows stays in flight
+        Pause,
+        /// the peer reads again
+        Resume,
     }
 
     impl TOp {
@@ -56,6 +64,10 @@ mod pty {
                 TOp::Flush => "f".into(),
                 TOp::Poll(ms) => format!("p:{ms}"),
                 TOp::Drop => "d".into(),
+                TOp::Image(n) => format!("i:{n}"),
+                TOp::ImageErase(n) => format!("e:{n}"),
+                TOp::Pause => "P".into(),
+                TOp::Resume => "R".into(),
             }
         }
         fn parse(t: &str) -> Option<TOp> {
@@ -63,11 +75,55 @@ mod pty {
             Some(match parts.as_slice() {
                 ["f"] => TOp::Flush,
                 ["d"] => TOp::Drop,
+                ["P"] => TOp::Pause,
+                ["R"] => TOp::Resume,
+                ["i", n] => TOp::Image(n.parse().ok()?),
+                ["e", n] => TOp::ImageErase(n.parse().ok()?),
                 ["W", l, g] => TOp::Write(l.parse().ok()?, g.parse().ok()?),
                 ["x", n] => TOp::Exec(n.parse().ok()?),
                 ["p", ms] => TOp::Poll(ms.parse().ok()?),
                 _ => return None,
             })
+        }
+    }
+
+    /// small opaque test image number `n` and where it goes
+    fn image(n: usize) -> (surf_n_term::Image, Position) {
+        use surf_n_term::{RGBA, Size, SurfaceOwned};
+        let surf = SurfaceOwned::new_with(Size { height: 6 + n % 7, width: 4 + n % 5 }, |pos| {
+            RGBA::new((40 * pos.row + n) as u8, (60 * pos.col + 3 * n) as u8, (n * 17) as u8, 255)
+        });
+        (surf_n_term::Image::new(surf), Position { row: n % 20, col: n * 3 % 100 })
+    }
+
+    /// the bytes the terminal's image handler writes for an image command, from a second handler of the same
+    /// kind that sees the same calls in the same order (the handlers keep a cache)
+    struct ImageMirror {
+        sixel: Option<surf_n_term::SixelImageHandler>,
+    }
+
+    impl ImageMirror {
+        fn new(term: &mut SystemTerminal, with_images: bool) -> Result<ImageMirror, String> {
+            use surf_n_term::image::ImageHandlerKind;
+            match term.image_handler().kind() {
+                ImageHandlerKind::Dummy => Ok(ImageMirror { sixel: None }),
+                // sixel output is not byte-reproducible: sessions with image commands run with the dummy handler
+                ImageHandlerKind::Sixel if !with_images => Ok(ImageMirror { sixel: Some(surf_n_term::SixelImageHandler::new(None)) }),
+                _ => Err("unexpected-image-handler".into()),
+            }
+        }
+        fn bytes(&mut self, n: usize, erase: bool) -> Vec<u8> {
+            use surf_n_term::ImageHandler;
+            let mut out = Vec::new();
+            if let Some(h) = self.sixel.as_mut() {
+                let (img, pos) = image(n);
+                if erase {
+                    h.erase(&mut out, &img, Some(pos)).unwrap();
+                } else {
+                    h.draw(&mut out, &img, pos).unwrap();
+                }
+            }
+            out
         }
     }
 
@@ -97,9 +153,15 @@ mod pty {
         stop: AtomicBool,
         /// the peer does not read while set (stalled terminal emulator)
         pause: AtomicBool,
+        /// drain as fast as possible from now on (set when the terminal is being dropped with output in flight)
+        fast: AtomicBool,
         /// answer the size query `ESC[18t ESC[14t` (the ioctl reports no pixel size, so the terminal then takes
         /// its size from escape sequences: `UnixTerminal::size` is `Some`)
         esc: bool,
+        /// announce sixel support in the DA1 answer (`ESC[?62;4c`), otherwise `ESC[?62c`: the terminal then uses
+        /// the dummy image handler, whose output for image commands is empty (sixel output is not
+        /// byte-reproducible: the palette order comes from a hash map)
+        sixel: bool,
         rows: u16,
         cols: u16,
     }
@@ -160,7 +222,7 @@ mod pty {
                 phase_left = 1 + rng.below(200);
             }
             phase_left -= 1;
-            let (chunk, sleep_us) = if stopping {
+            let (chunk, sleep_us) = if stopping || shared.fast.load(Ordering::SeqCst) {
                 (1 << 16, 0)
             } else {
                 match mode {
@@ -197,7 +259,7 @@ mod pty {
             while i < tail.len() {
                 let rest = &tail[i..];
                 if rest.starts_with(b"\x1b[c") {
-                    replies.extend_from_slice(b"\x1b[?62;4c");
+                    replies.extend_from_slice(if shared.sixel { &b"\x1b[?62;4c"[..] } else { &b"\x1b[?62c"[..] });
                     i += 3;
                 } else if shared.esc && rest.starts_with(SIZE_QUERY) {
                     replies.extend_from_slice(
@@ -232,13 +294,13 @@ mod pty {
     }
 
     impl Rig {
-        fn open(profile: u64, peer_seed: u64, esc: bool, rows: u16, cols: u16) -> Result<(Rig, RawFd), String> {
+        fn open(profile: u64, peer_seed: u64, esc: bool, sixel: bool, rows: u16, cols: u16) -> Result<(Rig, RawFd), String> {
             let (master, slave) = open_pty(rows, cols)?;
             // our own descriptor of the slave for the whole session: the pty must outlive the terminal
             let keep = unsafe { libc::dup(slave) };
             let shared = Arc::new(Shared {
                 received: Mutex::new(Vec::new()), count: AtomicUsize::new(0), idle: AtomicUsize::new(0),
-                stop: AtomicBool::new(false), pause: AtomicBool::new(false), esc, rows, cols,
+                stop: AtomicBool::new(false), pause: AtomicBool::new(false), fast: AtomicBool::new(false), esc, sixel, rows, cols,
             });
             let thread = {
                 let shared = shared.clone();
@@ -433,12 +495,16 @@ mod pty {
         }
     }
 
-    pub fn run_session(ops: &[TOp], profile: u64, peer_seed: u64, esc: bool, want_trace: bool) -> SessionOutcome {
+    /// `end_by_drop`: the terminal is dropped right after the last call, with whatever is queued or in flight
+    /// (`Drop` → `dispose`: frames_drop, closing sequence, wait for the DA1 answer); otherwise the queue is
+    /// drained by polls first.
+    pub fn run_session(ops: &[TOp], profile: u64, peer_seed: u64, esc: bool, end_by_drop: bool, want_trace: bool) -> SessionOutcome {
         let mut outcome = SessionOutcome {
             inconclusive: None, failure: None, trace: None, bytes: 0, short_writes: 0, eagain: 0, tty_writes: 0,
             dropped_payloads: 0, executed: Vec::new(),
         };
-        let (rig, slave) = match Rig::open(profile, peer_seed, esc, 50, 132) {
+        let with_images = ops.iter().any(|o| matches!(o, TOp::Image(_) | TOp::ImageErase(_)));
+        let (rig, slave) = match Rig::open(profile, peer_seed, esc, !with_images, 50, 132) {
             Ok(x) => x,
             Err(e) => {
                 outcome.inconclusive = Some(format!("no-pty:{e}"));
@@ -458,8 +524,22 @@ mod pty {
                 return finish(outcome);
             }
         };
-        let _ = verif_c16::take_trace();
         let mut enc = TTYEncoder::new(term.capabilities().clone());
+        let mut mirror = match ImageMirror::new(&mut term, with_images) {
+            Ok(m) => m,
+            Err(e) => {
+                outcome.inconclusive = Some(e);
+                drop(term);
+                return finish(outcome);
+            }
+        };
+        let closing = if end_by_drop { closing_sequence(esc) } else { None };
+        if end_by_drop && closing.is_none() {
+            outcome.inconclusive = Some("closing-sequence-not-calibrated".into());
+            drop(term);
+            return finish(outcome);
+        }
+        let _ = verif_c16::take_trace(); // (the calibration above polls another terminal)
 
         let mut payloads: Vec<Vec<u8>> = Vec::new();
         let mut events: Vec<Evt> = Vec::new();
@@ -474,8 +554,9 @@ mod pty {
             let op = match queue.pop_front() {
                 Some(op) => op,
                 None => {
+                    shared.pause.store(false, Ordering::SeqCst);
                     // final drain: poll until nothing is pending
-                    if term.frames_pending() == 0 {
+                    if end_by_drop || term.frames_pending() == 0 {
                         break;
                     }
                     if Instant::now() > deadline {
@@ -489,7 +570,25 @@ mod pty {
             if !draining {
                 outcome.executed.push(op.token());
             }
+            let frames_before = term.frames_pending();
             let step = guarded(|| match &op {
+                TOp::Pause => shared.pause.store(true, Ordering::SeqCst),
+                TOp::Resume => shared.pause.store(false, Ordering::SeqCst),
+                TOp::Image(n) | TOp::ImageErase(n) => {
+                    let erase = matches!(op, TOp::ImageErase(_));
+                    let p = mirror.bytes(*n, erase);
+                    if !p.is_empty() {
+                        req.push_str(&format!(" w:{}", hex(&p)));
+                    }
+                    events.push(Evt::Payload(payloads.len()));
+                    payloads.push(p);
+                    let (img, pos) = image(*n);
+                    if erase {
+                        term.execute(TerminalCommand::ImageErase(img, Some(pos))).unwrap();
+                    } else {
+                        term.execute(TerminalCommand::Image(img, pos)).unwrap();
+                    }
+                }
                 TOp::Write(l, t) => {
                     let p = synth(*l, *t);
                     events.push(Evt::Payload(payloads.len()));
@@ -550,13 +649,74 @@ mod pty {
                 std::mem::forget(term);
                 return finish(outcome);
             }
-            obs.push(format!("{}/{}/{}", term.stats().send - s0, term.frames_pending(), verif_c16::queue_len(&term)));
+            // frames are delimited by flush (and by poll, which flushes): no other call may add one
+            let frames_after = term.frames_pending();
+            let allowed = match &op {
+                TOp::Flush | TOp::Poll(_) => frames_before + 1,
+                TOp::Drop => 1,
+                _ => frames_before.max(1),
+            };
+            if frames_after > allowed && outcome.failure.is_none() {
+                outcome.failure = Some((
+                    format!("call #{} `{}` added a frame boundary although the program did not flush (frames_pending {} -> {}): a frame is split and frames_drop can tear it",
+                        outcome.executed.len(), op.token(), frames_before, frames_after),
+                    format!("frames_pending <= {allowed}"), format!("{frames_after}"),
+                ));
+            }
+            if !matches!(op, TOp::Pause | TOp::Resume) && !(matches!(op, TOp::Image(_) | TOp::ImageErase(_)) && payloads.last().map(|p| p.is_empty()).unwrap_or(false)) {
+                obs.push(format!("{}/{}/{}", term.stats().send - s0, frames_after, verif_c16::queue_len(&term)));
+            }
             if poll_error.is_some() {
                 break;
             }
         }
         if let Some(e) = poll_error {
             outcome.inconclusive = Some(format!("poll-error:{e}"));
+        }
+        if end_by_drop && outcome.inconclusive.is_none() {
+            // ---- drop the terminal with whatever is queued / in flight -------------------------------------
+            let sent = term.stats().send - s0;
+            let qlen = verif_c16::queue_len(&term);
+            let closing = closing.unwrap();
+            events.push(Evt::Drop(sent));
+            if esc {
+                events.push(Evt::LibPayload(payloads.len()));
+                payloads.push(SIZE_QUERY.to_vec());
+            }
+            events.push(Evt::Payload(payloads.len()));
+            payloads.push(closing.clone());
+            // the peer drains as fast as it can so that `dispose` (1 s per poll) can finish
+            shared.pause.store(false, Ordering::SeqCst);
+            shared.fast.store(true, Ordering::SeqCst);
+            shared.idle.store(0, Ordering::SeqCst);
+            if guarded(move || drop(term)).is_err() {
+                outcome.failure = Some(("drop of the terminal panicked".into(), "no panic".into(), "panic".into()));
+                return finish(outcome);
+            }
+            // the terminal is gone: wait until the line has been idle for a while
+            let t1 = Instant::now();
+            while shared.idle.load(Ordering::SeqCst) < 12 && t1.elapsed() < Duration::from_secs(30) {
+                std::thread::sleep(Duration::from_millis(2));
+            }
+            let got: Vec<u8> = shared.received.lock().unwrap()[s0..].to_vec();
+            outcome.bytes = got.len();
+            match oracle(&payloads, &events, &got, true) {
+                Ok(d) => outcome.dropped_payloads = d,
+                Err((exp, g)) => {
+                    // `dispose` gives up when the DA1 answer does not arrive within a second and then flushes the
+                    // tty: an incomplete stream is then legitimate, but it must still be a prefix (safety)
+                    match oracle(&payloads, &events, &got, false) {
+                        Ok(_) if !got.ends_with(&closing) => outcome.inconclusive = Some("dispose-did-not-finish".into()),
+                        _ => outcome.failure = Some((
+                            "terminal dropped with output in flight: the master did not receive the frame in flight completely, then the closing sequence".into(), exp, g)),
+                    }
+                }
+            }
+            if want_trace && outcome.inconclusive.is_none() && outcome.failure.is_none() && got.len() >= sent {
+                obs.push(format!("end {}/{}", fnv(&got[..sent]), qlen));
+                outcome.trace = Some((req, obs.join(" ")));
+            }
+            return finish(outcome);
         }
         if outcome.inconclusive.is_none() {
             // everything was handed to the kernel; wait until the peer has it (or has seen the line idle)
@@ -579,7 +739,12 @@ mod pty {
             outcome.bytes = got.len();
             match oracle(&payloads, &events, &got, complete) {
                 Ok(d) => outcome.dropped_payloads = d,
-                Err((exp, g)) => outcome.failure = Some(("the pty master did not receive the written stream".into(), exp, g)),
+                Err((exp, g)) => match outcome.failure.take() {
+                    None => outcome.failure = Some(("the pty master did not receive the written stream".into(), exp, g)),
+                    // a frame was split earlier in this session; here is what it did to the stream
+                    Some((what, e0, g0)) => outcome.failure = Some((
+                        format!("{what}; and on the wire a frame arrived torn"), format!("{e0}; stream: {exp}"), format!("{g0}; stream: {g}"))),
+                },
             }
             if complete && outcome.failure.is_none() && term.stats().send - s0 != got.len() {
                 outcome.failure = Some(("stats().send differs from the number of bytes the master received".into(),
@@ -592,6 +757,40 @@ mod pty {
         }
         drop(term); // epilogue + DA1 round trip with the peer, termios restored
         finish(outcome)
+    }
+
+    /// The closing sequence `dispose` sends (face reset, cursor on, mouse off, …, DA1), measured once per size
+    /// mode on a terminal that is dropped with an empty queue (the size query `frames_drop` may put in front of
+    /// it is not part of it).
+    fn closing_sequence(esc: bool) -> Option<Vec<u8>> {
+        static CACHE: Mutex<[Option<Option<Vec<u8>>>; 2]> = Mutex::new([None, None]);
+        if let Some(c) = CACHE.lock().unwrap()[esc as usize].clone() {
+            return c;
+        }
+        let measured = (|| {
+            let (rig, slave) = Rig::open(0, 1, esc, true, 50, 132).ok()?;
+            let r = match rig.boot(slave) {
+                Ok((term, s0)) => {
+                    let shared = rig.shared.clone();
+                    shared.idle.store(0, Ordering::SeqCst);
+                    drop(term);
+                    let t = Instant::now();
+                    while shared.idle.load(Ordering::SeqCst) < 12 && t.elapsed() < Duration::from_secs(20) {
+                        std::thread::sleep(Duration::from_millis(2));
+                    }
+                    let mut e = shared.received.lock().unwrap()[s0..].to_vec();
+                    if e.starts_with(SIZE_QUERY) {
+                        e.drain(..SIZE_QUERY.len());
+                    }
+                    if e.ends_with(b"\x1b[c") && e.len() < 200 { Some(e) } else { None }
+                }
+                Err(_) => None,
+            };
+            rig.finish();
+            r
+        })();
+        CACHE.lock().unwrap()[esc as usize] = Some(measured.clone());
+        measured
     }
 
     fn random_session(rng: &mut Rng, size_class: u64) -> Vec<TOp> {
@@ -626,8 +825,12 @@ mod pty {
                     }
                 };
                 TOp::Write(len, tag)
-            } else if r < 50 {
+            } else if r < 47 {
                 TOp::Exec(rng.below(4000) as usize)
+            } else if r < 52 {
+                if rng.chance(3, 4) { TOp::Image(rng.below(12) as usize) } else { TOp::ImageErase(rng.below(12) as usize) }
+            } else if r < 54 {
+                if rng.chance(1, 2) { TOp::Pause } else { TOp::Resume }
             } else if r < 68 {
                 TOp::Flush
             } else if r < 92 {
@@ -640,11 +843,17 @@ mod pty {
         ops
     }
 
-    fn report(out: &mut Out, ops: &[TOp], profile: u64, peer_seed: u64, esc: bool, label: &str, o: SessionOutcome) {
+    fn report(out: &mut Out, ops: &[TOp], profile: u64, peer_seed: u64, esc: bool, end_by_drop: bool, label: &str, o: SessionOutcome) {
         let key = format!("{label} {}", o.executed.join(" "));
         out.case(&key, o.short_writes + o.eagain > 0 || o.dropped_payloads > 0);
         out.hist(&format!("pty:{label}"));
         out.hist(if esc { "pty:size-from-escape-sequences" } else { "pty:size-from-ioctl" });
+        if end_by_drop {
+            out.hist("pty:ended-by-dropping-the-terminal");
+        }
+        if ops.iter().any(|o| matches!(o, TOp::Image(_) | TOp::ImageErase(_))) {
+            out.hist("pty:sessions-with-image-commands");
+        }
         if let Some(why) = &o.inconclusive {
             let why = why.split(':').next().unwrap_or("?");
             out.hist(&format!("pty:inconclusive:{why}"));
@@ -667,7 +876,7 @@ mod pty {
         if let Some((what, exp, got)) = o.failure {
             out.fail(
                 &format!("UnixTerminal on a pty: {what}"),
-                json!({"stage": "pty", "ops": ops.iter().map(|o| o.token()).collect::<Vec<_>>(), "peer_profile": profile, "peer_seed": peer_seed.to_string(), "size_from_escape": esc}),
+                json!({"stage": "pty", "ops": ops.iter().map(|o| o.token()).collect::<Vec<_>>(), "peer_profile": profile, "peer_seed": peer_seed.to_string(), "size_from_escape": esc, "end_by_drop": end_by_drop}),
                 json!(exp),
                 json!(got),
             );
@@ -678,15 +887,28 @@ mod pty {
         let t0 = Instant::now();
         let budget = Duration::from_secs(if cfg.thorough { 420 } else { 22 });
         // white-box sessions first
-        let fixed: Vec<(Vec<TOp>, u64)> = vec![
+        let fixed: Vec<(Vec<TOp>, u64, bool)> = vec![
             // one payload far beyond the pty buffer, peer slow: short writes and EAGAIN
-            (vec![TOp::Write(300_000, 3), TOp::Poll(0), TOp::Poll(1), TOp::Write(10, 9), TOp::Flush, TOp::Poll(0)], 2),
+            (vec![TOp::Write(300_000, 3), TOp::Poll(0), TOp::Poll(1), TOp::Write(10, 9), TOp::Flush, TOp::Poll(0)], 2, false),
+            // a frame `text, image, text` whose first part is in flight (stalled peer) when frames are dropped:
+            // the whole frame is one chunk whatever commands it contains, so nothing of it may be dropped
+            (vec![TOp::Pause, TOp::Write(100_000, 7), TOp::Image(1), TOp::Write(500, 8), TOp::ImageErase(2), TOp::Exec(9), TOp::Poll(0),
+                  TOp::Drop, TOp::Resume, TOp::Write(20, 9), TOp::Flush, TOp::Poll(1)], 0, false),
+            // the terminal is dropped while a frame far beyond the pty buffer is partly transmitted and another
+            // one is queued behind it: the frame in flight must arrive completely, then the closing sequence
+            (vec![TOp::Pause, TOp::Write(600_000, 11), TOp::Flush, TOp::Write(5_000, 12), TOp::Flush, TOp::Poll(0)], 0, true),
+            // the same with the frame in flight still open (no flush after it) and an image command inside
+            (vec![TOp::Write(50, 1), TOp::Flush, TOp::Poll(2), TOp::Pause, TOp::Write(300_000, 13), TOp::Image(3), TOp::Write(100, 14), TOp::Poll(0),
+                  TOp::Write(70, 15)], 0, true),
+            // dropped with an empty queue, and with frames that have not started
+            (vec![TOp::Write(10, 1), TOp::Flush, TOp::Poll(5), TOp::Poll(5)], 0, true),
+            (vec![TOp::Pause, TOp::Write(10, 1), TOp::Flush, TOp::Write(20, 2), TOp::Flush, TOp::Write(30, 3)], 0, true),
             // frames queued behind a partly sent frame, then dropped
             (vec![TOp::Write(200_000, 1), TOp::Poll(0), TOp::Write(5000, 2), TOp::Flush, TOp::Write(7000, 3), TOp::Flush,
-                  TOp::Write(11, 4), TOp::Drop, TOp::Write(13, 5), TOp::Flush, TOp::Poll(1)], 2),
+                  TOp::Write(11, 4), TOp::Drop, TOp::Write(13, 5), TOp::Flush, TOp::Poll(1)], 2, false),
             // drop with nothing sent yet, double flush, empty payload
             (vec![TOp::Write(100, 1), TOp::Flush, TOp::Flush, TOp::Write(0, 2), TOp::Write(50, 3), TOp::Flush, TOp::Exec(8), TOp::Drop,
-                  TOp::Exec(17), TOp::Poll(0), TOp::Drop, TOp::Poll(0)], 0),
+                  TOp::Exec(17), TOp::Poll(0), TOp::Drop, TOp::Poll(0)], 0, false),
         ];
         let mut n_sessions = 0u64;
         let mut total_bytes = 0usize;
@@ -695,8 +917,8 @@ mod pty {
         let mut total_eagain = 0usize;
         let mut inconclusive = 0u64;
         let mut consecutive_inconclusive = 0u64;
-        let mut run = |out: &mut Out, ops: Vec<TOp>, profile: u64, peer_seed: u64, esc: bool, label: &str, trace: bool| {
-            let o = run_session(&ops, profile, peer_seed, esc, trace);
+        let mut run = |out: &mut Out, ops: Vec<TOp>, profile: u64, peer_seed: u64, esc: bool, end_by_drop: bool, label: &str, trace: bool| {
+            let o = run_session(&ops, profile, peer_seed, esc, end_by_drop, trace);
             n_sessions += 1;
             total_bytes += o.bytes;
             total_writes += o.tty_writes;
@@ -708,15 +930,15 @@ mod pty {
             } else {
                 consecutive_inconclusive = 0;
             }
-            report(out, &ops, profile, peer_seed, esc, label, o);
+            report(out, &ops, profile, peer_seed, esc, end_by_drop, label, o);
             consecutive_inconclusive >= 3
         };
         let mut give_up = false;
-        for (ops, profile) in fixed {
+        for (ops, profile, end_by_drop) in fixed {
             // every white-box session in both size modes
             for esc in [false, true] {
                 let seed = rng.next();
-                give_up = run(out, ops.clone(), profile, seed, esc, "fixed", true);
+                give_up = run(out, ops.clone(), profile, seed, esc, end_by_drop, "fixed", true);
             }
         }
         // the render loop's frame-drop policy (`Terminal::run_render`) against a stalled peer, both size modes
@@ -732,7 +954,9 @@ mod pty {
             let ops = random_session(rng, class);
             let seed = rng.next();
             let esc = rng.chance(1, 3);
-            give_up = run(out, ops, profile, seed, esc, &format!("random-class{class}"), class < 2);
+            // a quarter of the sessions end with the terminal being dropped with whatever is queued or in flight
+            let end_by_drop = class < 2 && rng.chance(1, 4);
+            give_up = run(out, ops, profile, seed, esc, end_by_drop, &format!("random-class{class}"), class < 2);
             if cfg.thorough && i % 40 == 7 {
                 let esc = rng.chance(1, 2);
                 let stall = rng.chance(3, 4);
@@ -771,8 +995,9 @@ mod pty {
         // the kernel schedule is not reproducible: try a few times
         for _ in 0..5 {
             let before = out.failure_count;
-            let o = run_session(&ops, profile, seed, esc, true);
-            report(out, &ops, profile, seed, esc, "replay", o);
+            let end_by_drop = input["end_by_drop"].as_bool().unwrap_or(false);
+            let o = run_session(&ops, profile, seed, esc, end_by_drop, true);
+            report(out, &ops, profile, seed, esc, end_by_drop, "replay", o);
             if out.failure_count > before {
                 break;
             }
@@ -886,7 +1111,7 @@ mod pty {
             params: json!({"stage": "render", "frames": n_frames, "rows": rows, "cols": cols, "stalled_peer": stall,
                 "size_from_escape": esc, "peer_seed": peer_seed.to_string()}),
         };
-        let (rig, slave) = match Rig::open(if stall { 0 } else { 2 }, peer_seed, esc, rows, cols) {
+        let (rig, slave) = match Rig::open(if stall { 0 } else { 2 }, peer_seed, esc, true, rows, cols) {
             Ok(x) => x,
             Err(e) => {
                 o.inconclusive = Some(format!("no-pty:{e}"));
@@ -1107,6 +1332,7 @@ pub fn run_seq(ops: &[Op]) -> SeqResult {
             }
         };
         let len_before = q.len();
+        let chunks_before = q.chunks_count();
         let mut read_out: Option<Vec<u8>> = None;
         let r = guarded(|| match op {
             Op::Write(b) => {
@@ -1190,6 +1416,16 @@ pub fn run_seq(ops: &[Op]) -> SeqResult {
                 break;
             }
         };
+        // chunks are delimited by flush only: a write may start the first chunk, nothing else adds one
+        let allowed_chunks = match op {
+            Op::Write(_) => chunks_before.max(1),
+            Op::Flush => chunks_before + 1,
+            _ => chunks_before,
+        };
+        if failure.is_none() && q.chunks_count() > allowed_chunks {
+            fail(&mut failure, i, "the call added a chunk boundary that no flush asked for (a frame is split, clear_but_last can tear it)",
+                format!("chunks_count <= {allowed_chunks}"), format!("{}", q.chunks_count()));
+        }
         if failure.is_none() {
             if q.len() != fifo.buf.len() {
                 fail(&mut failure, i, "len() differs from the number of unread bytes", format!("{}", fifo.buf.len()), format!("{}", q.len()));
